@@ -14,6 +14,7 @@ def register(reg):
     c07.register_rp66(reg)
     register_channels(reg)
     register_frame_array(reg)
+    register_xaxis(reg)
     # row selection (populate_frame_array sizes the arrays with Slice.count / Sample.count and fills them from gen_indices)
     from contracts import c15
     c15.register(reg)
@@ -47,6 +48,27 @@ def register_channels(reg):
                      # fixed length of its representation code): later channels are decoded from the same bytes as in a full read
                      ensures=['ld.index == old(ld.index) + self.count * fixed_len(self.rep_code)'],
                      canaries=['ld.index == old(ld.index)'], crosscheck=False))
+
+
+def register_xaxis(reg):
+    """XAxis (the per frame-type index of IFLRs): append stores exactly the position, the RECORDED frame number and the X
+    value it is given, after the entries already there and without touching them; item access and length read them back."""
+    REF = KRec('IFLRReference', logical_record_position=Int, frame_number=Int, x_axis=Real)
+    XS = KRec('XAxis', _data=KView(REF), _summary=KOpt(Int))
+    reg.add(Contract(XA, 'XAxis.append', {'self': XS, 'position': Int, 'frame_number': Int, 'x_axis': Real},
+                     modifies=['self._data', 'self._summary'],
+                     ensures=['len(self._data) == len(old(self._data)) + 1',
+                              'self._data[len(self._data) - 1].frame_number == frame_number',
+                              'self._data[len(self._data) - 1].logical_record_position == position',
+                              'self._data[len(self._data) - 1].x_axis == x_axis',
+                              'forall(0, len(old(self._data)), lambda i: self._data[i] == old(self._data)[i])',
+                              # a cached summary of the shorter axis is dropped
+                              'is_none(self._summary)'],
+                     canaries=['len(self._data) == len(old(self._data))', 'self._data[len(self._data) - 1].frame_number == len(self._data)'],
+                     crosscheck=False))
+    reg.add(Contract(XA, 'XAxis.__getitem__', {'self': XS, 'item': Int}, requires=['0 <= item', 'item < len(self._data)'], returns=REF,
+                     ensures=['result == self._data[item]'], canaries=['result.frame_number == item + 1'], crosscheck=False))
+    reg.add(Contract(XA, 'XAxis.__len__', {'self': XS}, returns=Int, ensures=['result == len(self._data)'], canaries=['result == 0'], crosscheck=False))
 
 
 def _requested():
